@@ -228,3 +228,103 @@ example : (match Model.cdsDates (Model.mkDate 20 12 2008) (Model.mkDate 20 3 201
     [(20, 3, 2009), (22, 6, 2009), (21, 9, 2009), (21, 12, 2009), (22, 3, 2010)] := by decide +kernel
 
 end FinVerif.Props.C16
+
+/-! ### `Schedule.generate`: no date is lost, interior dates are adjusted rolls -/
+
+namespace FinVerif.Props.C16
+open FinVerif FinVerif.Sched
+
+/-- C16 "no date is lost": merging coinciding dates keeps every distinct date — each input date's serial is
+the serial of some output date. -/
+theorem dedup_no_loss (prev : PyDate) (l r : List PyDate) (h : dedup prev l = .ok r) :
+    ∀ x ∈ prev :: l, ∃ y ∈ r, y.serial = x.serial := by
+  induction l generalizing prev r with
+  | nil =>
+    simp only [dedup, Except.ok.injEq] at h; subst h
+    intro x hx; exact ⟨x, hx, rfl⟩
+  | cons dt rest ih =>
+    simp only [dedup] at h
+    split at h
+    · cases h
+    · split at h
+      · split at h
+        · cases h
+        · rename_i r' hr'
+          simp only [Except.ok.injEq] at h; subst h
+          intro x hx
+          simp only [List.mem_cons] at hx
+          rcases hx with rfl | hx
+          · exact ⟨x, by simp, rfl⟩
+          · obtain ⟨y, hy, hs⟩ := ih dt r' hr' x (by simpa using hx)
+            exact ⟨y, by simp [hy], hs⟩
+      · rename_i hlt hgt
+        have he : dt.serial = prev.serial := by omega
+        intro x hx
+        simp only [List.mem_cons] at hx
+        rcases hx with rfl | rfl | hx
+        · exact ih x r h x (by simp)
+        · obtain ⟨y, hy, hs⟩ := ih prev r h prev (by simp)
+          exact ⟨y, hy, by rw [hs, he]⟩
+        · exact ih prev r h x (by simp [hx])
+
+/-- … and nothing is invented: every output date is one of the input dates. -/
+theorem dedup_subset (prev : PyDate) (l r : List PyDate) (h : dedup prev l = .ok r) :
+    ∀ y ∈ r, y ∈ prev :: l := by
+  induction l generalizing prev r with
+  | nil =>
+    simp only [dedup, Except.ok.injEq] at h; subst h
+    intro y hy; exact hy
+  | cons dt rest ih =>
+    simp only [dedup] at h
+    split at h
+    · cases h
+    · split at h
+      · split at h
+        · cases h
+        · rename_i r' hr'
+          simp only [Except.ok.injEq] at h; subst h
+          intro y hy
+          simp only [List.mem_cons] at hy
+          rcases hy with rfl | hy
+          · simp
+          · have := ih dt r' hr' y hy
+            simp only [List.mem_cons] at this ⊢
+            rcases this with h1 | h1
+            · right; left; exact h1
+            · right; right; exact h1
+      · intro y hy
+        have := ih prev r h y hy
+        simp only [List.mem_cons] at this ⊢
+        rcases this with h1 | h1
+        · left; exact h1
+        · right; right; exact h1
+
+variable (o : Ops)
+
+/-- C16 (BACKWARD): the list built by `generate` before the end-point handling is
+`[previous coupon date] ++ adjust(interior rolls, increasing) ++ [termination]`, where the rolls are
+`termination − k·period` for consecutive `k = 1, 2, …` (whole periods from the anchor) and the previous coupon
+date is the last (earliest) of them — every interior date is the adjustment of a regular roll date and every
+roll date strictly after the effective date appears. -/
+theorem body_backward_interior (p : Params) (fuel : Nat) (ds : List PyDate) (hb : p.backward = true)
+    (h : body o p fuel = .ok ds) :
+    ∃ rolls adj : List PyDate,
+      (∀ i (hi : i < rolls.length), rollB o p (0 + 1 + i) = .ok (rolls[i])) ∧
+      mapE o.adjust (rolls.dropLast.reverse) = .ok adj ∧
+      ds = [(p.termination :: rolls).getLast?.getD p.termination] ++ adj ++ [p.termination] := by
+  simp only [body, hb, if_true] at h
+  cases hl : backwardLoop o p fuel 0 p.termination [] with
+  | error e => simp [hl] at h
+  | ok un =>
+    simp only [hl] at h
+    obtain ⟨rolls, hun, hr⟩ := backwardLoop_rolls o p fuel 0 p.termination [] un hl
+    have hun' : un = p.termination :: rolls := by simpa using hun
+    subst hun'
+    simp only [List.drop_succ_cons, List.drop_zero] at h
+    cases hm : mapE o.adjust (rolls.dropLast.reverse) with
+    | error e => simp [hm] at h
+    | ok adj =>
+      simp only [hm, Except.ok.injEq] at h
+      exact ⟨rolls, adj, hr, hm, h.symm⟩
+
+end FinVerif.Props.C16
